@@ -95,12 +95,13 @@ Fixpoint dedupe_first (seen l : list string) : list string :=
 Definition isort_names (names : list string) : list string :=
   ksort str_leb isort_key (dedupe_first [] names).
 
-(* operation module:  generate_import_from([str_to_pascal_case(f) for f in self._fragments_used_as_mixins],
-   fragments_module, 1)  -> autoflake keeps every used name -> isort.           result_types.py
-   [pre_sorted] = the proposed fix (iterate sorted(self._fragments_used_as_mixins)) *)
-Definition op_import_names (pre_sorted : bool) (code : list nat) (mixins : list string) : list string :=
-  let it := permute code mixins in
-  isort_names (map pascal_s (if pre_sorted then str_sort it else it)).
+(* operation module:  generate_import_from([str_to_pascal_case(f) for f in sorted(self._fragments_used_as_mixins)],
+   fragments_module, 1)  -> autoflake keeps every used name -> isort.           result_types.py (since 93e79d6) *)
+Definition op_import_names (code : list nat) (mixins : list string) : list string :=
+  isort_names (map pascal_s (str_sort (permute code mixins))).
+(* what the code did before 93e79d6 (the set iterated as it comes): kept ONLY for the regression Examples *)
+Definition op_import_names_unsorted (code : list nat) (mixins : list string) : list string :=
+  isort_names (map pascal_s (permute code mixins)).
 
 (* ------------------------------------------------------------------ the fragments module *)
 Fixpoint assoc_s {V} (k : string) (al : list (string * V)) : option V :=
@@ -135,10 +136,11 @@ Fixpoint work (fuel : nat) (o : orc) (fi : finput) (queue names processed : list
       end
   end.
 
-(* _get_sorted_fragments_names.visit — state = (visited, sorted_names).
-   [sorted_deps] = the proposed fix `for dep in sorted(dependencies_dict[name])`; false = the code as it is *)
-Definition dfs_deps (sorted_deps : bool) (o : orc) (fi : finput) (n : string) : list string :=
-  if sorted_deps then str_sort (deps_iter o fi n) else deps_iter o fi n.
+(* _get_sorted_fragments_names.visit — state = (visited, sorted_names);
+   `for dep in sorted(dependencies_dict[name])` (since 93e79d6) *)
+Definition dfs_deps (o : orc) (fi : finput) (n : string) : list string := str_sort (deps_iter o fi n).
+(* before 93e79d6 the set was iterated as it comes: kept ONLY for the regression Examples *)
+Definition dfs_deps_unsorted (o : orc) (fi : finput) (n : string) : list string := deps_iter o fi n.
 
 Fixpoint visit (fuel : nat) (deps : string -> list string) (n : string) (st : list string * list string)
   : option (list string * list string) :=
@@ -166,21 +168,21 @@ Definition frag_fuel (fi : finput) : nat := S (S (List.length (fi_defs fi))).
 (* (order in which fragments are generated, order of the fragments' classes in the module);
    "<names>" is the key of the set self._fragments_names.  None = fuel exhausted (never with frag_fuel on
    inputs whose dependencies are defined fragments: Example in Properties/C10.v, and the tie) *)
-Definition frag_module_order (sorted_deps : bool) (o : orc) (fi : finput)
+Definition frag_module_order_with (deps : orc -> finput -> string -> list string) (o : orc) (fi : finput)
   : option (list string * list string) :=
   let names0 := set_diff (fi_defs fi) (fi_excl fi) in
   match work (frag_fuel fi) o fi (str_sort (permute (o "<names>") names0)) names0 [] with
   | None => None
   | Some (names, processed) =>
-      match dfs_all (frag_fuel fi) (dfs_deps sorted_deps o fi) (str_sort (permute (o "<names>") names)) with
+      match dfs_all (frag_fuel fi) (deps o fi) (str_sort (permute (o "<names>") names)) with
       | Some order => Some (processed, order)
       | None => None
       end
   end.
-
-(* the defect class of F12: some generated fragment has two or more mixin dependencies *)
-Definition g_c10_dfs (fi : finput) : bool :=
-  forallb (fun p => Nat.leb (List.length (snd p)) 1) (fi_mix fi).
+Definition frag_module_order : orc -> finput -> option (list string * list string) :=
+  frag_module_order_with dfs_deps.
+Definition frag_module_order_unsorted : orc -> finput -> option (list string * list string) :=
+  frag_module_order_with dfs_deps_unsorted.      (* regression Examples only *)
 
 (* ------------------------------------------------------------------ loading a directory of .graphql files *)
 Definition gql_ext (parts : list string) : bool :=
@@ -219,24 +221,31 @@ Fixpoint last_write (n : string) (p : list (string * string)) : option string :=
 (* ------------------------------------------------------------------ interpreter-global state *)
 (* The `from m import names` nodes that ClientGenerator puts into every client module are MODULE-LEVEL
    constants (UNSET_IMPORT, UPLOAD_IMPORT, ...), shared by all generations of one interpreter.
-   pstate = the names each shared node currently holds.  ClientForwardRefsPlugin._update_existing_imports
-   assigns `node.names = reduced_names` on them.  [wanted] = the types the plugin wants to import only under
-   TYPE_CHECKING; it can only move those it finds among the imports.  [copy] = the proposed fix (new node).
-   Result: ((import statements of client.py, names imported under TYPE_CHECKING), state afterwards). *)
+   pstate = the names each shared node holds.  ClientForwardRefsPlugin._update_existing_imports builds NEW
+   ImportFrom nodes with the reduced names (since be644af), so a generation hands the state on unchanged.
+   [wanted] = the types the plugin wants to import only under TYPE_CHECKING; it can only move those it finds
+   among the imports.  Result: ((import statements of client.py, names under TYPE_CHECKING), state afterwards). *)
 Definition pstate := list (string * list string).
 Definition all_names (st : pstate) : list string := flat_map snd st.
 Definition nonempty_imports (st : pstate) : pstate :=
   filter (fun p => match snd p with [] => false | _ => true end) st.   (* _add_import drops nameless imports *)
-Definition gen_client_imports (copy plugin : bool) (wanted : list string) (st : pstate)
+Definition reduced_imports (wanted : list string) (st : pstate) : pstate * list string :=
+  let moved := filter (fun n => mem_s n (all_names st)) wanted in
+  (map (fun p => (fst p, set_diff (snd p) moved)) st, moved).
+Definition gen_client_imports (plugin : bool) (wanted : list string) (st : pstate)
   : (pstate * list string) * pstate :=
   if plugin then
-    let moved := filter (fun n => mem_s n (all_names st)) wanted in
-    let reduced := map (fun p => (fst p, set_diff (snd p) moved)) st in
-    ((nonempty_imports reduced, moved), if copy then st else reduced)
+    let '(reduced, moved) := reduced_imports wanted st in ((nonempty_imports reduced, moved), st)
+  else ((nonempty_imports st, []), st).
+(* before be644af the plugin assigned node.names = reduced_names on the shared nodes: regression Examples only *)
+Definition gen_client_imports_mutating (plugin : bool) (wanted : list string) (st : pstate)
+  : (pstate * list string) * pstate :=
+  if plugin then
+    let '(reduced, moved) := reduced_imports wanted st in ((nonempty_imports reduced, moved), reduced)
   else ((nonempty_imports st, []), st).
 (* a history of earlier generations (plugin?, wanted) in the same interpreter *)
-Definition run_history (copy : bool) (hist : list (bool * list string)) (st : pstate) : pstate :=
-  fold_left (fun st h => snd (gen_client_imports copy (fst h) (snd h) st)) hist st.
+Definition run_history (hist : list (bool * list string)) (st : pstate) : pstate :=
+  fold_left (fun st h => snd (gen_client_imports (fst h) (snd h) st)) hist st.
 Definition st_initial : pstate :=
   [("base_model", ["UNSET"; "UnsetType"]); ("base_model", ["Upload"]); ("async_base_client", ["AsyncBaseClient"])].
 
@@ -300,10 +309,8 @@ Definition site_table : list site := [
   St "client_generators/fragments.py" "FragmentsGenerator.__init__" "construct" "set(self.fragments_definitions.keys())" SkNone "";
   St "client_generators/fragments.py" "FragmentsGenerator._get_sorted_fragments_names" "construct" "set()" SkNone "";
   St "client_generators/fragments.py" "FragmentsGenerator._get_sorted_fragments_names" "sorted" "fragments_names" SkSorted "";
-  St "client_generators/fragments.py" "FragmentsGenerator._get_sorted_fragments_names.visit" "iter" "dependencies_dict[name]" SkRaw
-    "F12: class order of fragments.py follows the iteration order of a set (frag_module_order false)";
   St "client_generators/fragments.py" "FragmentsGenerator._get_sorted_fragments_names.visit" "sorted" "dependencies_dict[name]" SkSorted
-    "the proposed fix (frag_module_order true)";
+    "since 93e79d6 (frag_module_order)";
   St "client_generators/fragments.py" "FragmentsGenerator._get_sorted_fragments_names.visit" "member" "visited" SkMember "";
   St "client_generators/fragments.py" "FragmentsGenerator.generate" "construct" "set()" SkNone "";
   St "client_generators/fragments.py" "FragmentsGenerator.generate" "member" "self._fragments_names" SkMember "";
@@ -330,11 +337,8 @@ Definition site_table : list site := [
   St "client_generators/result_fields.py" "parse_interface_type" "sorted"
     "{f.type_condition.name.value for f in inline_fragments + fragments_on_subtypes}" SkSorted "";
   St "client_generators/result_types.py" "ResultTypesGenerator.__init__" "construct" "set()" SkNone "";
-  St "client_generators/result_types.py" "ResultTypesGenerator._add_enums_scalars_fragments_imports" "iter"
-    "self._fragments_used_as_mixins" SkIsort
-    "names of `from .fragments import ...` in an operation module: isort orders them by a case-insensitive key, ties keep set order (op_import_names false)";
   St "client_generators/result_types.py" "ResultTypesGenerator._add_enums_scalars_fragments_imports" "sorted"
-    "self._fragments_used_as_mixins" SkSorted "the proposed fix (op_import_names true)";
+    "self._fragments_used_as_mixins" SkSorted "since 93e79d6 (op_import_names)";
   St "client_generators/result_types.py" "ResultTypesGenerator._add_enums_scalars_fragments_imports" "size"
     "isinstance(self.operation_definition, OperationDefinitionNode) and self._fragments_used_as_mixins and self.fragments_module_name" SkMember "";
   St "client_generators/result_types.py" "ResultTypesGenerator._add_enums_scalars_fragments_imports" "size"
@@ -342,8 +346,6 @@ Definition site_table : list site := [
   St "client_generators/result_types.py" "ResultTypesGenerator._add_typename_field_to_selections" "construct"
     "{f.name.value for f in resolved_fields}" SkNone "";
   St "client_generators/result_types.py" "ResultTypesGenerator._add_typename_field_to_selections" "member" "field_names" SkMember "";
-  St "client_generators/result_types.py" "ResultTypesGenerator._get_all_related_fragments" "iter" "self._fragments_used_as_mixins" SkMember
-    "the loop only unions into another set, consumed by sorted() in get_operation_as_str";
   St "client_generators/result_types.py" "ResultTypesGenerator._get_fragments_names" "construct" "set()" SkNone "";
   St "client_generators/result_types.py" "ResultTypesGenerator._get_fragment_bases" "construct" "set(bases)" SkNone "";
   St "client_generators/result_types.py" "ResultTypesGenerator._get_fragment_bases" "construct" "set(self._unpacked_fragments)" SkNone "";
@@ -366,13 +368,8 @@ Definition site_table : list site := [
     "set(possible_types_names) - set(types_names)" SkSorted
     "the list only reaches generate_typename_annotation, which sorts it (typename_literal)";
   St "client_generators/result_types.py" "ResultTypesGenerator._parse_type_definition" "size" "fragments" SkMember "";
-  St "client_generators/result_types.py" "ResultTypesGenerator._parse_type_definition" "sorted" "fragments" SkSorted "class_bases";
   St "client_generators/result_types.py" "ResultTypesGenerator._resolve_selection_set" "construct" "set()" SkNone "";
   St "client_generators/result_types.py" "ResultTypesGenerator._resolve_selection_set" "construct" "set(fragments)" SkNone "";
-  St "client_generators/result_types.py" "ResultTypesGenerator.get_operation_as_str" "size" "self._fragments_used_as_mixins" SkMember "";
-  St "client_generators/result_types.py" "ResultTypesGenerator.get_operation_as_str" "size"
-    "self._fragments_used_as_mixins or self._unpacked_fragments" SkMember "";
-  St "client_generators/result_types.py" "ResultTypesGenerator.get_operation_as_str" "size" "self._unpacked_fragments" SkMember "";
   St "client_generators/result_types.py" "ResultTypesGenerator.get_operation_as_str" "sorted" "self._get_all_related_fragments()" SkSorted
     "related_fragments";
   St "config.py" "get_client_settings" "construct" "{f.name for f in fields(ClientSettings)}" SkNone "";
@@ -384,23 +381,17 @@ Definition site_table : list site := [
   St "config.py" "get_graphql_schema_settings" "iter:join" "missing_fields" SkErrorText "as in get_client_settings";
   St "config.py" "get_graphql_schema_settings" "member" "settings_fields_names" SkMember "";
   St "contrib/client_forward_refs.py" "ClientForwardRefsPlugin.__init__" "construct" "set()" SkNone "";
-  St "contrib/client_forward_refs.py" "ClientForwardRefsPlugin._add_forward_ref_imports" "iter" "self.input_and_return_types" SkIsort
-    "names and statements of the `if TYPE_CHECKING:` imports; isort re-sorts the indented block";
   St "contrib/client_forward_refs.py" "ClientForwardRefsPlugin._add_forward_ref_imports" "sorted" "self.input_and_return_types" SkSorted
-    "the proposed fix";
+    "since 93e79d6";
   St "contrib/client_forward_refs.py" "ClientForwardRefsPlugin._update_existing_imports" "member" "return_types_not_used_as_input" SkMember "";
   St "contrib/client_forward_refs.py" "ClientForwardRefsPlugin._update_imports" "arg" "return_types_not_used_as_input" SkMember
     "flows into _update_existing_imports, which only tests membership";
   St "contrib/client_forward_refs.py" "ClientForwardRefsPlugin._update_imports" "construct" "set(self.input_and_return_types)" SkNone "";
   St "contrib/client_forward_refs.py" "ClientForwardRefsPlugin._update_imports" "size" "return_types_not_used_as_input" SkMember "";
   St "contrib/shorter_results.py" "ShorterResultsPlugin._update_imports" "construct" "set()" SkNone "";
-  St "contrib/shorter_results.py" "ShorterResultsPlugin.generate_client_module" "iter" "self.extended_imports[stmt.module]" SkIsort
-    "extra names appended to an existing from-import of the client module";
-  St "contrib/shorter_results.py" "ShorterResultsPlugin.generate_client_module" "iter:list" "alias" SkIsort
-    "names of a new from-import of the client module";
   St "contrib/shorter_results.py" "ShorterResultsPlugin.generate_client_module" "sorted" "self.extended_imports[stmt.module]" SkSorted
-    "the proposed fix";
-  St "contrib/shorter_results.py" "ShorterResultsPlugin.generate_client_module" "sorted" "alias" SkSorted "the proposed fix";
+    "since 93e79d6";
+  St "contrib/shorter_results.py" "ShorterResultsPlugin.generate_client_module" "sorted" "alias" SkSorted "since 93e79d6";
   St "graphql_schema_generators/constants.py" "<module>" "construct"
     "frozenset(GRAPHQL_IMPORTS + TYPE_MAP_IMPORTS + TYPING_IMPORTS)" SkNone "";
   St "settings.py" "assert_name_is_not_reserved_in_schema_module" "member" "RESERVED_VARIABLE_NAMES" SkMember "";
@@ -446,35 +437,35 @@ Definition run_nondet (e : sexp) : sexp :=
       match dNats c, dStrs tn, dStrs ps with
       | Some code, Some t, Some p => sStrs (typename_literal code abs t p)
       | _, _, _ => sErr "typename" end
-  | L [A "opimports"; b; c; l] =>
-      match dB b, dNats c, dStrs l with
-      | Some pre, Some code, Some xs => sStrs (op_import_names pre code xs)
-      | _, _, _ => sErr "opimports" end
+  | L [A "opimports"; c; l] =>
+      match dNats c, dStrs l with
+      | Some code, Some xs => sStrs (op_import_names code xs)
+      | _, _ => sErr "opimports" end
   | L [A "bases"; c; l] =>
       match dNats c, dStrs l with Some code, Some xs => sStrs (class_bases code xs) | _, _ => sErr "bases" end
-  | L [A "fragorder"; b; defs; mix; excl; oc] =>
-      match dB b, dStrs defs, dList (dPair dStr dStrs) mix, dStrs excl, dList (dPair dStr dNats) oc with
-      | Some sd, Some d, Some m, Some x, Some o =>
-          match frag_module_order sd (orc_of o) {| fi_defs := d; fi_mix := m; fi_excl := x |} with
+  | L [A "fragorder"; defs; mix; excl; oc] =>
+      match dStrs defs, dList (dPair dStr dStrs) mix, dStrs excl, dList (dPair dStr dNats) oc with
+      | Some d, Some m, Some x, Some o =>
+          match frag_module_order (orc_of o) {| fi_defs := d; fi_mix := m; fi_excl := x |} with
           | Some (processed, order) => L [sStrs processed; sStrs order]
           | None => sErr "fuel"
           end
-      | _, _, _, _, _ => sErr "fragorder" end
+      | _, _, _, _ => sErr "fragorder" end
   | L [A "writeall"; p; fs] =>
       match dList (dPair dStr dStr) p, dList (dPair dStr dStr) fs with
       | Some pp, Some f => L (map (fun x => L [A (fst x); A (snd x)]) (write_all pp f))
       | _, _ => sErr "writeall" end
-  | L [A "procstate"; cp; hist; st] =>
-      match dB cp, dList (dPair dB dStrs) hist, dList (dPair dStr dStrs) st with
-      | Some c, Some h, Some s0 =>
+  | L [A "procstate"; hist; st] =>
+      match dList (dPair dB dStrs) hist, dList (dPair dStr dStrs) st with
+      | Some h, Some s0 =>
           L ((fix go (h : list (bool * list string)) (st : pstate) : list sexp :=
                 match h with
                 | [] => []
                 | x :: r =>
-                    let '((imps, moved), st') := gen_client_imports c (fst x) (snd x) st in
+                    let '((imps, moved), st') := gen_client_imports (fst x) (snd x) st in
                     L [L (map (fun p => L [A (fst p); sStrs (snd p)]) imps); sStrs moved] :: go r st'
                 end) h s0)
-      | _, _, _ => sErr "procstate" end
+      | _, _ => sErr "procstate" end
   | L [A "sites"] =>
       L (map (fun s => L [A (s_file s); A (s_fn s); A (s_ctx s); A (s_expr s); A (sink_name (s_sink s));
                           sB (order_sensitive (s_sink s)); A (s_note s)]) site_table)
